@@ -71,8 +71,9 @@ fn multisets(m: usize, k: usize, cur: &mut Vec<usize>, start: usize, f: &mut dyn
 }
 
 // two names sort before "collateral" and two after it (blocks are visited in name order)
-// two of them differ only in case: names are matched as written
-const NAMES: [&str; 4] = ["a", "A", "b", "x"];
+// two of them differ only in case: names are matched as written. A case with k blocks uses the first k names: the
+// first two straddle "collateral", the first three hold the case variants
+const NAMES: [&str; 4] = ["a", "x", "A", "b"];
 
 /// Runs a template with the given blocks; `names[i]` is the name of source block i.
 /// Returns per-block selections in NAME order, or the error kind.
